@@ -93,7 +93,7 @@ PROPS = {
         level_text='Verus proves KmerIter::next (yields the k-mer with symbols index..index+K in canonical form, None exactly when index+K > n), kmers(), unsafe_from, TryFrom<&SeqSlice> (Ok exactly for length K, MismatchedLength otherwise), Deref for Kmer and the k-mer/sequence equality impls, generic in codec, K and storage',
         level_note=B_NOTE + '; K*BITS <= storage width is a precondition (the crate never evaluates its _ASSERT_K consts); FromStr/Display/From<Kmer> for Seq are glue covered by a bounded stand-in',
         technique='deductive verification (Verus) of extracted functions against contracts',
-        verus=[dict(name='c08', mode='T', roots=['kmer.iter.next', 'iter.ctors', 'kmer.try_from', 'kmer.deref', 'kmer.eq', 'kmer.len', 'iter.chunks.next', 'kmer.conv', 'kmer.storage'])],
+        verus=[dict(name='c08', mode='T', roots=['kmer.iter.next', 'iter.ctors', 'kmer.try_from', 'kmer.deref', 'kmer.eq', 'kmer.len', 'iter.chunks.next', 'kmer.conv', 'kmer.storage', 'kmer.run_lemma', 'iter.run_lemmas'])],
         standin=True,
     ),
     'C09': dict(
@@ -120,7 +120,7 @@ PROPS = {
         level_text='Verus proves SeqIter/RevIter/SeqChunks next() and the constructors (iter, rev_iter, windows, chunks, into_iter): each call yields exactly the next symbol / width-w slice and advances the index; run-to-exhaustion lemmas give the full enumeration and termination',
         level_note=B_NOTE + '; Iterator::next impls are re-homed as inherent methods (R8) so the struct invariant can be a precondition; chain/FromIterator<&SeqSlice> are std glue covered by a bounded stand-in',
         technique='deductive verification (Verus) of iterator step functions + induction lemmas',
-        verus=[dict(name='c11', mode='T', roots=['iter.seqiter.next', 'iter.reviter.next', 'iter.chunks.next', 'iter.ctors', 'iter.into_iter'])],
+        verus=[dict(name='c11', mode='T', roots=['iter.seqiter.next', 'iter.reviter.next', 'iter.chunks.next', 'iter.ctors', 'iter.into_iter', 'iter.run_lemmas'])],
         standin=True,
     ),
     'C12': dict(
